@@ -63,6 +63,9 @@ def generate(rng, tier):
                 f2[5] = mkopt_(ty_mptr(ty_id('Missing')) if rng.random() < 0.5 else ty_id('Missing'))
             elif kind == 'underscore':
                 f2[2] = '_' + f[2]
+                if rng.random() < 0.4:
+                    # an internal function with an unresolvable parameter: no wrapper is emitted for it, the error must still come
+                    f2[4] = [S('args')] + list(f[4][1:]) + [arg('zz', ty_cptr(ty_id('Missing')))]
             c = replace_at(c, p, f2)
             if kind == 'split':
                 # spread the functions of the block over two, three or four impl blocks of the same type
